@@ -134,7 +134,7 @@ def run(ctx, build):
         return
     R = ctx.try_runner('Tftp')
     rng = ctx.rng
-    nsess = 8000 if ctx.thorough else 120
+    nsess = 20000 if ctx.thorough else 120
     if ctx.widen:
         nsess *= 2
     rec = {'data': 0}
